@@ -19,6 +19,7 @@ import (
 	"go.amzn.com/lambda/fatalerror"
 	"go.amzn.com/lambda/interop"
 	"go.amzn.com/lambda/metering"
+	"go.amzn.com/lambda/verifhook"
 
 	"github.com/google/uuid"
 	log "github.com/sirupsen/logrus"
@@ -400,6 +401,7 @@ func (s *Server) Reset(reason string, timeoutMs int64) (*statejson.ResetDescript
 		}
 
 		resetSuccess, resetFailure := s.sandboxContext.Reset(reset)
+		verifhook.Point("serverReset.beforeClear")
 		s.Clear() // clear server state to prepare for new invokes
 		s.setRapidPhase(phaseIdle)
 		s.setRuntimeState(runtimeNotStarted)
@@ -562,6 +564,7 @@ func (s *Server) FastInvoke(w http.ResponseWriter, i *interop.Invoke, direct boo
 			if invokeFailure.DefaultErrorResponse == nil {
 				log.Panicf("default error response was nil for invoke failure, %v", invokeFailure)
 			}
+			verifhook.Point("fastInvoke.failureSeen")
 
 			if cachedInitError := s.getCachedInitErrorResponse(); cachedInitError != nil {
 				// /init/error was called
@@ -662,6 +665,7 @@ func (s *Server) Invoke(responseWriter http.ResponseWriter, invoke *interop.Invo
 		if err != nil {
 			log.Infof("ReserveFailed: %s", err)
 		}
+		verifhook.Point("invoke.reserved")
 
 		invoke.DeadlineNs = fmt.Sprintf("%d", metering.Monotime()+reserveResp.Token.FunctionTimeout.Nanoseconds())
 		go func() {
@@ -700,6 +704,7 @@ func (s *Server) Invoke(responseWriter http.ResponseWriter, invoke *interop.Invo
 					releaseErrChan <- ErrInitDoneFailed
 				}
 			case ErrInitDoneFailed, ErrInvokeDoneFailed:
+				verifhook.Point("invoke.releaseFailed")
 				// Reset when either init or invoke failrues occur, i.e.
 				// init/error, invocation/error, Runtime.ExitError, Extension.ExitError
 				s.Reset(autoresetReasonReleaseFail, resetDefaultTimeoutMs)
@@ -716,6 +721,7 @@ func (s *Server) Invoke(responseWriter http.ResponseWriter, invoke *interop.Invo
 	var err error
 	select {
 	case timeoutErr := <-timeoutChan:
+		verifhook.Point("invoke.timeoutFired")
 		s.Reset(autoresetReasonTimeout, resetDefaultTimeoutMs)
 		select {
 		case releaseErr := <-releaseErrChan: // when AwaitRelease() has errors
